@@ -478,6 +478,11 @@ def directed():
                  sset(I(0), 0, objects=[1]), smut(I(0), 5, boundsSetHi=3), smut(I(0), 1, boundsSetHi=3), mkInst(0, [(0, 99)]), setV(I(2), 0, 1), acc(2, 0),
                  mkInst(0, [(1, 50), (0, 99)]), mkInst(1, [(6, 9)]), setV(C(1), 6, 9), setV(C(1), 0, 99), mkInst(0, [(9, 1)])]
     yield two + [mkClass([1, 0], [D(7, 'plain', 0)]), mkInst(2), setV(C(2), 1, 5), setV(C(1), 1, 6), setV(I(2), 7, [1]), mutV(I(2), 7, 2), setV(C(2), 7, 1)]
+    # a chain of four classes whose lowest class has answered `.param` already (instance made, Parameter read) when a class
+    # in the middle gets its own copy by assignment: every class below it must see the new Parameter, not a cached one
+    yield [mkClass([], [D(0, 'number', 5, blist=[0, 10]), D(1, 'plain', [1], inst=True)]), mkClass([0], []), mkClass([1, 0], []),
+           mkClass([2, 1, 0], []), mkInst(3), acc(0, 0), mkInst(2), setV(C(1), 0, 7), mkInst(3), setV(C(1), 1, [2, 3]), mkInst(3), mkInst(2),
+           sset(C(3), 0, blist=[0, 8]), setV(C(2), 0, 6), acc(2, 0), mkInst(3), setV(C(3), 1, [4]), setV(C(0), 0, 1), mkInst(3)]
     # a constructor keyword that is a reference without a value assigns nothing: the instantiate=True default is still copied
     yield [mkClass([], [D(0, 'plain', [1, 2], inst=True, refs=True), D(1, 'plain', [3], inst=True, refs=True, const=True), D(2, 'plain', 4, refs=True)]),
            mkInst(0, [(0, 'pending')]), mkInst(0), mkInst(0, [(0, 'pending'), (1, 'pending'), (2, 'pending')]), mutV(I(0), 0, 9), mutV(I(2), 1, 8),
